@@ -241,6 +241,78 @@ func init() {
 			if err != nil {
 				return append(out, TW("second-half"), TW("not-served"), TW("iso"), TBool(true))
 			}
+		case "other-dials-slowly":
+			// another logical connection's service takes 2.5 s to reach; connections opened meanwhile on the same session must select
+			// their channel and move data at once (each bounded by 1.2 s here), not when that dial has finished
+			fa, err := w.addListener("slowdial", clientCfg("none", false, true), "")
+			if err != nil {
+				return append(out, TW("first-half"), TW("setup"))
+			}
+			x, err := net.Dial("tcp", fa)
+			if err == nil {
+				defer x.Close()
+			}
+			time.Sleep(150 * time.Millisecond)
+			for i := 1; i < k; i++ {
+				t0 := time.Now()
+				appB, tB, err := w.dialApp(1200 * time.Millisecond)
+				if err != nil {
+					return append(out, TW("not-served"), TW("iso"), TBool(true))
+				}
+				s, ok := echoOnce(appB, tB, patBytes(i, 600), 1200*time.Millisecond)
+				appB.Close()
+				tB.Close()
+				if !ok || time.Since(t0) > 1500*time.Millisecond {
+					return append(out, TW("delayed-"+s), TW("iso"), TBool(true))
+				}
+				out = append(out, TW("ok"))
+			}
+			return append(out, TW("iso"), TBool(true))
+		case "many-refused":
+			// 300 logical connections that end in an error on the server (a channel it does not offer), one after the other and all
+			// finished; then the session must still take new connections
+			for i := 0; i < 300; i++ {
+				if x, err := net.Dial("tcp", w.nochanAddr); err == nil {
+					x.SetReadDeadline(time.Now().Add(2 * time.Second))
+					x.Read(make([]byte, 1)) // refused: closed by the client
+					x.Close()
+				}
+			}
+		case "unix-listener":
+			// the application side is a unix stream socket (every peer has the same empty address): two connections at once, the older
+			// one finishes first, the newer one must go on undisturbed
+			path, err := w.addUnixListener("svc", clientCfg("none", false, true))
+			if err != nil {
+				return append(out, TW("first-half"), TW("setup"))
+			}
+			dialU := func() (net.Conn, net.Conn) {
+				a, err := net.Dial("unix", path)
+				if err != nil {
+					return nil, nil
+				}
+				tc := w.target.next(3 * time.Second)
+				if tc == nil {
+					a.Close()
+					return nil, nil
+				}
+				return a, tc
+			}
+			a1, tt1 := dialU()
+			a2, tt2 := dialU()
+			if a1 == nil || a2 == nil {
+				return append(out, TW("first-half"), TW("not-served"))
+			}
+			defer a2.Close()
+			defer tt2.Close()
+			if s, ok := echoOnce(a2, tt2, patBytes(1, 700), 3*time.Second); !ok {
+				return append(out, TW("first-half"), TW(s))
+			}
+			a1.Close() // the older connection ends
+			tt1.Close()
+			time.Sleep(150 * time.Millisecond)
+			if s, ok := echoOnce(a2, tt2, patBytes(2, 700), 3*time.Second); !ok {
+				return append(out, TW("second-half"), TW(s), TW("iso"), TBool(true))
+			}
 		case "other-refused":
 			// while this connection is in the middle of a transfer another application asks for a channel the server does not offer
 			if s, ok := echoOnce(app1, t1, patBytes(1, 1024), 3*time.Second); !ok {
